@@ -213,3 +213,21 @@ def has(spec, kind):
     if k == 'comp':
         return any(has(p, kind) for p in spec['parts'])
     return False
+
+
+def draw_pop_for_dim(draw, n_dim, n_ids, kinds=ELEM_KINDS, max_cov_parts=1, p_cov=0.3):
+    """A composed population spec with exactly n_dim dimensions (at most max_cov_parts
+    covariate-wrapped parts, so covariate names stay unique)."""
+    parts = []
+    remaining = n_dim
+    n_cov_parts = 0
+    while remaining > 0:
+        d = draw(st.integers(1, min(3, remaining)))
+        e = draw_elem(draw, kinds, max_dim=d)
+        e['n_dim'] = d
+        if n_cov_parts < max_cov_parts and gen.chance(draw, p_cov):
+            e = draw_cov_wrap(draw, e, n_ids, max_cov=2)
+            n_cov_parts += 1
+        parts.append(e)
+        remaining -= d
+    return dict(kind='comp', parts=parts)
